@@ -12,6 +12,7 @@ package fgjust
 import (
 	"fmt"
 	"math"
+	"runtime/debug"
 	"sort"
 	"strings"
 	"testing"
@@ -64,6 +65,7 @@ type jScen struct {
 	OtherFin  bool    `json:"caller_expects_other_target"`
 	Only64    bool    `json:"numbers_need_64_bits"`
 	Mutations string  `json:"mutations"`
+	Salt      int     `json:"hash_salt"` // varies the block hashes (and so their sort order) without changing the tree; 0 = the original names
 
 	tree fg.Tree
 	info *fg.TreeInfo
@@ -262,7 +264,19 @@ func (c sChain[N]) IsEqualOrDescendantOf(base, block string) bool {
 	return err == nil
 }
 
-func bname(b int) string { return fmt.Sprintf("blk%02d", (b*7+3)%64) + fmt.Sprint(b) }
+// bname is the level-A "hash" of block b. The two-digit prefix decides the sort order of sibling blocks inside the
+// vote graph; a non-zero salt reshuffles it.
+func (s *jScen) bname(b int) string {
+	x := (b*7 + 3) % 64
+	if s.Salt != 0 {
+		h := uint64(s.Salt)*0x9E3779B97F4A7C15 + uint64(b+1)*0xBF58476D1CE4E5B9
+		h ^= h >> 29
+		h *= 0x94D049BB133111EB
+		h ^= h >> 32
+		x = int(h % 100)
+	}
+	return fmt.Sprintf("blk%02d", x) + fmt.Sprint(b)
+}
 func kname(k int) string { return fmt.Sprintf("id%02d", (k*5+2)%16) + fmt.Sprint(k) }
 
 func voterSetOf(s *jScen, authOrder []int) *grandpa.VoterSet[string] {
@@ -282,19 +296,19 @@ func runCommit[N runtime.Number](s *jScen, order, authOrder []int) (valid bool, 
 	ch := sChain[N]{parent: map[string]string{}}
 	for _, h := range s.Headers {
 		if h > 0 {
-			ch.parent[bname(h)] = bname(s.tree.Parent[h])
+			ch.parent[s.bname(h)] = s.bname(s.tree.Parent[h])
 		} else if h == 0 {
-			ch.parent[bname(0)] = "parent-of-root"
+			ch.parent[s.bname(0)] = "parent-of-root"
 		}
 	}
 	commit := grandpa.Commit[string, N, string, string]{
-		TargetHash:   bname(s.Target),
+		TargetHash:   s.bname(s.Target),
 		TargetNumber: N(int64(s.num(s.Target)) + int64(s.NumOff)),
 	}
 	for _, i := range order {
 		pc := s.PCs[i]
 		commit.Precommits = append(commit.Precommits, grandpa.SignedPrecommit[string, N, string, string]{
-			Precommit: grandpa.Precommit[string, N]{TargetHash: bname(pc.Target), TargetNumber: N(s.num(pc.Target))},
+			Precommit: grandpa.Precommit[string, N]{TargetHash: s.bname(pc.Target), TargetNumber: N(s.num(pc.Target))},
 			Signature: fmt.Sprintf("sig/%d/%d/%d", pc.Key, pc.Target, pc.Bad),
 			ID:        kname(pc.Key),
 		})
@@ -340,7 +354,10 @@ func build[N runtime.Number](s *jScen) *jBuilt[N] {
 		if i > 0 {
 			parent = b.hashes[s.tree.Parent[i]]
 		}
-		hd := generic.NewHeader[N, hash.H256, runtime.BlakeTwo256](N(s.num(i)), h32(0xa1, i), h32(0xb2, i), parent, runtime.Digest{})
+		xr := []byte(h32(0xa1, i))
+		xr[3], xr[4] = byte(s.Salt), byte(s.Salt>>8) // the salt changes this block's hash and every hash below it
+		xroot := hash.H256(xr)
+		hd := generic.NewHeader[N, hash.H256, runtime.BlakeTwo256](N(s.num(i)), xroot, h32(0xb2, i), parent, runtime.Digest{})
 		b.headers[i] = hd
 		b.hashes[i] = hd.Hash()
 	}
@@ -742,30 +759,47 @@ func (s *jScen) descending() []int {
 
 type jStats struct{ accepted, rejected int }
 
-func checkScen(c *vcommon.Case, s *jScen, perms int, withJust bool) {
+func (s *jScen) init() {
 	if s.info == nil {
 		s.tree = fg.Tree{Parent: s.Parents}
 		s.info = fg.NewTreeInfo(s.tree)
 	}
+}
+
+func checkScen(c *vcommon.Case, s *jScen, perms int, withJust bool) {
+	s.init()
+	orders := [][]int{identity(len(s.PCs)), reversed(len(s.PCs)), s.descending()}
+	for i := 0; i < perms; i++ {
+		orders = append(orders, c.R.Perm(len(s.PCs)))
+	}
+	nJust := 0
+	if withJust {
+		nJust = len(orders)
+	}
+	checkScenOrders(c, s, orders, nJust, "")
+}
+
+// checkScenOrders runs scenario s through ValidateCommit in every given precommit order (and through the
+// justification entry points in the first nJust of them), with both number widths. Counters get the prefix pfx.
+// It returns the level-A reference verdict and whether the monitor stayed silent.
+func checkScenOrders(c *vcommon.Case, s *jScen, orders [][]int, nJust int, pfx string) (jVerdict, bool) {
+	s.init()
+	count := func(name string, n int) { c.Count(pfx+name, n) }
 	mw, tw := s.memberWeights(false), s.totalWeight()
 	if len(mw) == 0 {
-		c.Count("empty_voter_sets", 1)
+		count("empty_voter_sets", 1)
 	}
 	cv := s.commitVerdict(s.PCs, mw, tw)
 	// would a voter set that keeps only the last weight of a repeated key decide differently?
 	if alt := s.commitVerdict(s.PCs, s.memberWeights(true), tw); !alt.ambiguous && !cv.ambiguous && alt.ok != cv.ok {
-		c.Count("summed_weights_decisive", 1)
-	}
-	orders := [][]int{identity(len(s.PCs)), reversed(len(s.PCs)), s.descending()}
-	for i := 0; i < perms; i++ {
-		orders = append(orders, c.R.Perm(len(s.PCs)))
+		count("summed_weights_decisive", 1)
 	}
 	distinctNumbers := map[uint64]bool{}
 	for _, pc := range s.PCs {
 		distinctNumbers[s.num(pc.Target)] = true
 	}
 	if len(distinctNumbers) > 1 {
-		c.Count("scenarios_with_precommits_at_several_heights", 1)
+		count("scenarios_with_precommits_at_several_heights", 1)
 	}
 	wit := func(level, width string, order []int, got, want any) map[string]any {
 		return map[string]any{"scenario": s, "entry": level, "number_type": width, "precommit_order": order,
@@ -774,7 +808,7 @@ func checkScen(c *vcommon.Case, s *jScen, perms int, withJust bool) {
 	widths := []bool{true, false}
 	if s.Only64 {
 		widths = []bool{false}
-		c.Count("scenarios_numbers_beyond_32_bits", 1)
+		count("scenarios_numbers_beyond_32_bits", 1)
 	}
 	// ---- level A
 	var first *bool
@@ -796,17 +830,17 @@ func checkScen(c *vcommon.Case, s *jScen, perms int, withJust bool) {
 			if nilSet {
 				if len(mw) != 0 {
 					c.Violation("voterset-nil", "NewVoterSet returned nil for a set with positive weights", wit("NewVoterSet", width, order, nil, nil))
-					return
+					return cv, false
 				}
 				continue
 			}
 			c.Eval(1)
-			c.Count("validate_commit_runs", 1)
+			count("validate_commit_runs", 1)
 			if w32 {
-				c.Count("validate_commit_runs_uint32", 1)
+				count("validate_commit_runs_uint32", 1)
 			}
 			if cv.ambiguous {
-				c.Count("ghost_not_unique_runs", 1)
+				count("ghost_not_unique_runs", 1)
 				continue
 			}
 			if first == nil {
@@ -823,26 +857,29 @@ func checkScen(c *vcommon.Case, s *jScen, perms int, withJust bool) {
 				}
 				c.Violation(cls, fmt.Sprintf("ValidateCommit[%s] valid=%v err=%v, definition: %v (%s)", width, valid, err, cv.ok, cv.reason),
 					wit("ValidateCommit", width, order, valid, cv.ok))
-				return
+				return cv, false
 			}
 		}
 	}
 	if cv.ambiguous {
-		c.Count("scenarios_ghost_not_unique", 1)
+		count("scenarios_ghost_not_unique", 1)
 	} else if cv.ok {
-		c.Count("commits_valid", 1)
+		count("commits_valid", 1)
 	} else {
-		c.Count("commit_invalid:"+cv.reason, 1)
+		count("commit_invalid:"+cv.reason, 1)
 	}
-	if !withJust {
-		return
+	if nJust <= 0 {
+		return cv, true
+	}
+	if nJust > len(orders) {
+		nJust = len(orders)
 	}
 	// ---- level B
 	if s.Only64 && s.RootNum < 1<<56 {
 		// header numbers in 2^32..2^56 need a 5..7-byte compact integer, which pkg/scale cannot decode
 		// (property C11, not this one): such justifications are only checked at the ValidateCommit level
-		c.Count("justification_level_skipped_5to7_byte_compact_header_number", 1)
-		return
+		count("justification_level_skipped_5to7_byte_compact_header_number", 1)
+		return cv, true
 	}
 	strict, lenient := s.justVerdict(true, mw, tw), s.justVerdict(false, mw, tw)
 	undecided := strict.ambiguous || lenient.ambiguous || strict.ok != lenient.ok
@@ -852,7 +889,7 @@ func checkScen(c *vcommon.Case, s *jScen, perms int, withJust bool) {
 	}
 	b64 := build[uint64](s)
 	var firstJ *bool
-	for oi, order := range orders {
+	for oi, order := range orders[:nJust] {
 		hdrOrder, authOrder := identity(len(s.Headers)), identity(len(s.Auth))
 		if oi%2 == 1 {
 			hdrOrder, authOrder = c.R.Perm(len(s.Headers)), c.R.Perm(len(s.Auth))
@@ -871,7 +908,7 @@ func checkScen(c *vcommon.Case, s *jScen, perms int, withJust bool) {
 				continue
 			}
 			c.Eval(2)
-			c.Count("justification_runs", 2)
+			count("justification_runs", 2)
 			for ei, got := range []bool{okD, okV} {
 				entry := []string{"DecodeGrandpaJustificationVerifyFinalizes", "GrandpaJustification.Verify"}[ei]
 				want := strict.ok
@@ -895,7 +932,7 @@ func checkScen(c *vcommon.Case, s *jScen, perms int, withJust bool) {
 					} else if *firstJ != got {
 						c.Violation("justification-order-or-width-dependent", fmt.Sprintf("%s[%s] accepted=%v but another order/width gave %v (err=%v)",
 							entry, width, got, *firstJ, errs[ei]), wit(entry, width, order, got, *firstJ))
-						return
+						return cv, false
 					}
 					continue
 				}
@@ -908,7 +945,7 @@ func checkScen(c *vcommon.Case, s *jScen, perms int, withJust bool) {
 					w["expected_reason"] = strict.reason
 					w["error"] = fmt.Sprint(errs[ei])
 					c.Violation(cls, fmt.Sprintf("%s[%s] accepted=%v (err=%v), definition: %v (%s)", entry, width, got, errs[ei], want, strict.reason), w)
-					return
+					return cv, false
 				}
 			}
 		}
@@ -916,15 +953,16 @@ func checkScen(c *vcommon.Case, s *jScen, perms int, withJust bool) {
 	switch {
 	case strict.ambiguous || lenient.ambiguous:
 	case undecided:
-		c.Count("justification_reading_open(non-member/bad-signature precommit not needed for supermajority)", 1)
+		count("justification_reading_open(non-member/bad-signature precommit not needed for supermajority)", 1)
 	case strict.ok:
-		c.Count("justifications_valid", 1)
+		count("justifications_valid", 1)
 		if len(s.Headers) > 0 {
-			c.Count("justifications_valid_with_ancestry", 1)
+			count("justifications_valid_with_ancestry", 1)
 		}
 	default:
-		c.Count("justification_invalid:"+strict.reason, 1)
+		count("justification_invalid:"+strict.reason, 1)
 	}
+	return cv, true
 }
 
 // ---------------------------------------------------------------- NewVoterSet
@@ -1054,6 +1092,7 @@ func corpus() []*jScen {
 func TestVerifC19(t *testing.T) {
 	r := vcommon.Start(t, "C19")
 	defer r.Finish()
+	defer debug.SetGCPercent(debug.SetGCPercent(400)) // many short-lived rounds and decoded justifications: collect less often
 	if bad := fg.SelfCheck(); len(bad) > 0 {
 		r.Cases("selfcheck", 1, func(c *vcommon.Case) {
 			c.Inconclusive("reference Tally failed its self-validation: " + strings.Join(bad, ","))
@@ -1073,12 +1112,27 @@ func TestVerifC19(t *testing.T) {
 	r.Floor("commit_invalid:precommit-not-connected-to-base", 30)
 	r.Floor("justification_invalid:unused-header", 10)
 	r.Floor("justification_invalid:bad-signature", 5)
+	// family "bushy" (weighted GHOST on trees with several levels of forking)
+	r.Floor("bushy_ghost_unvoted_merge_point_3_votenodes_below_2_sharing_a_subthreshold_child", 30)
+	r.Floor("bushy_ghost_unvoted_merge_point_3_votenodes_below_one_child", 8)
+	r.Floor("bushy_ghost_unvoted_merge_point_with_voted_sibling_fork", 30)
+	r.Floor("bushy_scenarios_all_permutations", 30)
+	r.Floor("bushy_scenarios_40_random_orders", 60)
+	r.Floor("bushy_precommit_orders_evaluated(scenario x hash assignment x target)", 100000)
+	r.Floor("bushy_verdict_pairs(true GHOST accepted, under-weight child rejected)", 600)
+	r.Floor("bushy_validate_commit_runs_uint32", 100000)
+	r.Floor("bushy_justifications_valid", 300)
 
 	cp := corpus()
 	r.Fixed("corpus", len(cp), func(c *vcommon.Case) {
 		checkScen(c, cp[c.Idx], 6, true)
 		c.Distinct(fmt.Sprint("corpus", c.Idx))
 		c.Sample(map[string]any{"scenario": cp[c.Idx]})
+	})
+	bc := bushyCorpus()
+	r.Fixed("bushycorpus", len(bc), func(c *vcommon.Case) {
+		checkBushy(c, bc[c.Idx], bc[c.Idx].Target, []int{0, 1, 2, 3, 4, 5, 6, 7}, 6)
+		c.Sample(map[string]any{"scenario": bc[c.Idx]})
 	})
 	r.Cases("voterset", r.Scale(2000), checkVoterSet)
 	r.Cases("commit", r.Scale(2500), func(c *vcommon.Case) {
@@ -1091,5 +1145,16 @@ func TestVerifC19(t *testing.T) {
 		checkScen(c, s, 2, true)
 		c.Distinct(fmt.Sprint(s.Parents, s.Auth, s.PCs, s.Target, s.Headers, s.OtherFin))
 		c.Sample(map[string]any{"scenario": s})
+	})
+	r.Cases("bushy", r.Scale(200), func(c *vcommon.Case) {
+		s, aim := genBushy(c.R)
+		salts := []int{0}
+		for len(salts) < 4 {
+			salts = append(salts, c.R.Range(1, 65535))
+		}
+		checkBushy(c, s, aim, salts, 2)
+		if c.Idx%16 == 0 {
+			c.Sample(map[string]any{"scenario": s, "aimed_at": aim})
+		}
 	})
 }
